@@ -159,9 +159,6 @@ def retries(N: int, o0: int, o1: int, o2: int, o3: int, o4: int, o5: int, late: 
     # pauses 0, 0.5, 1, 2, 4 ... one per retry
     exp_sleeps = [0, 0.5, 1.0, 2.0, 4.0, 8.0][:used]
     P.check(sleeps == exp_sleeps, "backoff-sequence", lambda: f"sleeps:{sleeps}!={exp_sleeps}")
-    if "trace" in ext:
-        n_retry = len([t for t in traced if t == "connection.retry.started"])
-        P.check(n_retry == used, "one-retry-trace-event-per-pause", lambda: f"retry-events:{n_retry}!={used}")
     if final == 0 and h2only:
         # the connection is established, then the HTTP/2 exchange fails against an HTTP/1.1 server: never retried
         P.cover("h2only-mismatch")
